@@ -45,6 +45,7 @@ type replay struct {
 	Sig      string          `json:"sig"`
 	Msg      string          `json:"msg"`
 	Trace    []string        `json:"trace,omitempty"`
+	shard    int
 }
 
 type scenarioStat struct {
@@ -240,9 +241,13 @@ func check(id, tier string) int {
 		}(i)
 	}
 	wg.Wait()
-	for _, e := range errs {
+	shardErr := ""
+	for i, e := range errs {
 		if e != "" {
-			fatal(2, "HARNESS ERROR: %s", e)
+			if shardErr == "" {
+				shardErr = e
+			}
+			outs[i] = &output{Property: id, Tier: tier, Shard: i, NShards: n}
 		}
 	}
 	// merge
@@ -294,6 +299,7 @@ func check(id, tier string) int {
 			}
 		}
 		for _, v := range o.Violations {
+			v.shard = o.Shard
 			dup := false
 			for _, w := range viols {
 				if w.Sig == v.Sig && w.Scenario == v.Scenario {
@@ -330,6 +336,7 @@ func check(id, tier string) int {
 	sort.Slice(viols, func(i, j int) bool { return viols[i].Sig < viols[j].Sig })
 	newViol := 0
 	knownHit := map[string]bool{}
+	var unrepro []*replay
 	var lines []string
 	for _, v := range viols {
 		if strings.HasPrefix(v.Sig, "harness-") {
@@ -360,15 +367,50 @@ func check(id, tier string) int {
 				conf++
 			}
 		}
+		note := ""
 		if conf == 0 {
-			fatal(2, "HARNESS ERROR: violation %s of %s did not reproduce from its replay file %s (0/5) — nondeterminism in the harness", v.Sig, id, path)
+			unrepro = append(unrepro, v)
+			continue
 		}
 		newViol++
 		msg := v.Msg
 		if len(msg) > 400 {
 			msg = msg[:400]
 		}
-		lines = append(lines, fmt.Sprintf("VIOLATION property=%s replay=%s sig=%s scenario=%s reproduced=%d/5 :: %s", id, path, v.Sig, v.Scenario, conf, strings.ReplaceAll(msg, "\n", " ")))
+		lines = append(lines, fmt.Sprintf("VIOLATION property=%s replay=%s sig=%s scenario=%s reproduced=%d/5%s :: %s", id, path, v.Sig, v.Scenario, conf, note, strings.ReplaceAll(msg, "\n", " ")))
+	}
+	// violations that do not reproduce from a fresh process depend on state the schedule does not
+	// determine (e.g. Go's per-map random hash seed). Without any confirmed violation they are believed
+	// only if an independent re-exploration of the scenario hits the same signature again.
+	for _, v := range unrepro {
+		if newViol > 0 {
+			lines = append(lines, fmt.Sprintf("note: additional violation %s/%s was observed but is not schedule-determined (0/5 from its replay file)", v.Scenario, v.Sig))
+			continue
+		}
+		again := 0
+		for i := 0; i < 2 && again == 0; i++ {
+			o, _, err := runWorker(bin, []string{"-prop", id, "-tier", tier, "-shard", strconv.Itoa(v.shard), "-nshards", strconv.Itoa(n), "-only", v.Scenario, "-deadline", dl.String()}, gmp)
+			if err == nil {
+				for _, w := range o.Violations {
+					if strings.TrimPrefix(w.Sig, "!") == v.Sig && w.Scenario == v.Scenario {
+						again++
+					}
+				}
+			}
+		}
+		if again == 0 {
+			fatal(2, "HARNESS ERROR: violation %s of %s reproduced neither from its replay file (0/5) nor in an independent re-exploration — nondeterminism in the harness", v.Sig, id)
+		}
+		newViol++
+		path := filepath.Join(verifDir, "replays", fmt.Sprintf("%s-%s-%s.json", id, sanitize(v.Scenario), sanitize(v.Sig)))
+		lines = append(lines, fmt.Sprintf("VIOLATION property=%s replay=%s sig=%s scenario=%s reproduced=0/5 (not schedule-determined; hit again by an independent re-exploration) :: %s", id, path, v.Sig, v.Scenario, strings.ReplaceAll(v.Msg, "\n", " ")))
+	}
+	if shardErr != "" && newViol == 0 {
+		fatal(2, "HARNESS ERROR: %s", shardErr)
+	}
+	if shardErr != "" {
+		lines = append(lines, "note: at least one shard aborted (e.g. replay divergence): the behaviour of the code under test is not determined by the schedule")
+		exhaustive = false
 	}
 	wall := time.Since(t0).Seconds()
 	if distinct < 2 && nontriv >= 2 {
